@@ -427,7 +427,9 @@ def run_lmeasure(case, ctx):
 def population_strategy(draw, tier):
     k = draw(st.integers(1, 5))
     trees = [draw(gen_tree.tree_case(min_abs=2.0 ** -10, min_n=2, max_n=14, soma_root=True, mag=200.0, extras=False)) for _ in range(k)]
-    return {"trees": trees, "steps": draw(st.integers(1, 12))}
+    # the same extractor object is asked again: the same feature with other arguments, other features in between
+    return {"trees": trees, "steps": draw(st.integers(1, 12)),
+            "again": draw(st.lists(st.one_of(st.integers(1, 12), st.sampled_from(NAMES)), min_size=1, max_size=4))}
 
 
 def run_population(case, ctx):
@@ -454,15 +456,31 @@ def run_population(case, ctx):
     # Sholl over a population: common radii from the largest rmax
     shs = [Sholl(t) for t in trees]
     rmax = max(float(s.rmax) for s in shs)
-    if rmax > 0:
-        k = case["steps"]
+    def sholl_request(k, clause):
         rows = ctx.lib("population.get[sholl]", fe.get, "sholl", steps=k)
         rs = Sholl.get_rs(rmax=max(s.rmax for s in shs), steps=k)
-        ctx.check(np.asarray(rows).shape == (len(trees), len(rs)), "population/sholl-shape",
-                  lambda: f"{np.asarray(rows).shape} vs {(len(trees), len(rs))}")
+        ctx.check(np.asarray(rows).shape == (len(trees), len(rs)), f"population/{clause}-shape",
+                  lambda: f"steps={k}: {np.asarray(rows).shape} vs {(len(trees), len(rs))}")
         for i, s in enumerate(shs):
             ctx.check(np.array_equal(np.asarray(rows[i], dtype=np.float64), np.asarray(s.get(rs), dtype=np.float64)),
-                      "population/sholl-row", lambda: f"row {i}: {rows[i]} vs {s.get(rs)}")
+                      f"population/{clause}-row", lambda: f"steps={k} row {i}: {rows[i]} vs {s.get(rs)}")
+
+    if rmax > 0:
+        sholl_request(case["steps"], "sholl")
+    asked = {case["steps"]}
+    for req in case.get("again", []):
+        if isinstance(req, int):
+            if rmax > 0:
+                if req not in asked:
+                    ctx.cls("same-feature-asked-again-with-other-arguments")
+                asked.add(req)
+                sholl_request(req, "sholl-asked-again")
+        else:
+            rows = ctx.lib(f"population.get[{req}]", fe.get, req)
+            for i, t in enumerate(trees):
+                v = np.asarray(extract_feature(t).get(req), dtype=np.float64).reshape(-1)
+                ctx.check(np.array_equal(np.asarray(rows[i][:len(v)], dtype=np.float64), v), "population/asked-again-row",
+                          lambda: f"{req} row {i}: {rows[i]} vs {v}")
 
 
 SUBCHECKS = [
@@ -474,6 +492,6 @@ SUBCHECKS = [
         required={"root-off-origin": 200, "rmax>0": 300}),
     Sub("lmeasure", lmeasure_strategy, run_lmeasure, quick=1500, thorough=16000, shards_quick=4,
         required={"binary": 100, "general": 100, "bifurcations>=2": 50}),
-    Sub("population", population_strategy, run_population, quick=300, thorough=3000, shards_quick=4,
-        required={"differing-sizes": 40, "population:1": 5}),
+    Sub("population", population_strategy, run_population, quick=400, thorough=3000, shards_quick=4,
+        required={"differing-sizes": 40, "population:1": 5, "same-feature-asked-again-with-other-arguments": 40}),
 ]
